@@ -1131,8 +1131,8 @@ Proof.
   destruct t as [|c t]; [intros H; injection H as <-; unfold zlen, max_repeat_length; simpl; lia|].
   destruct (max_repeat_length <? zlen (c :: t) * count) eqn:El; [discriminate|]. apply Z.ltb_ge in El.
   intros H. injection H as <-. unfold zlen in *.
-  destruct (repeat_loop_spec (c :: t) (Z.to_nat count) [] 0%N) as [H1 _]. rewrite H1. simpl length in *.
-  rewrite Nat2Z.inj_mul, Z2Nat.id by assumption. lia.
+  destruct (repeat_loop_spec (c :: t) (Z.to_nat count) [] 0%N) as [H1 _]. rewrite H1.
+  change (length (@nil N)) with 0%nat. rewrite Nat.add_0_l, Nat2Z.inj_mul, Z2Nat.id by assumption. lia.
 Qed.
 
 Lemma repeat_body_over_limit : forall t count, t <> [] -> max_repeat_length < zlen t * count -> repeat_body t count = Ret VErr.
